@@ -385,3 +385,122 @@ def valuation_lanes(w, seed=0, np=None):
     vs.update([r.getrandbits(w), r.getrandbits(w)])
     vs = sorted(vs)
     return (np.array([x for x in vs for y in vs], dtype=np.uint64), np.array([y for x in vs for y in vs], dtype=np.uint64))
+
+
+# ---------------------------------------------------------------------------
+# single-point structural mutants (same width as the original, well-typed)
+
+def mutants(t, depth=3):
+    """trees that differ from t at exactly one point and have the same width"""
+    k = t[0]
+    w = _w(t)
+    if k == 'int':
+        yield I(t[1], t[2] + 1)
+        if t[1] > 1:
+            yield I(t[1], t[2] ^ (1 << (t[1] - 1)))
+    elif k == 'id':
+        yield ID('b' if t[1] != 'b' else 'a', t[2])
+    elif k == 'mem':
+        yield MEM(t[1], t[2], ID('fs', 16) if t[3] is None else None)
+        if t[3] is not None:
+            yield MEM(t[1], t[2], ID('gs', 16))
+        yield MEM(OP('+', t[1], I(32, 1)), t[2], t[3])
+    elif k == 'op':
+        op, args = t[1], t[2]
+        for grp in (BIN[:6], SHIFT, ('-', 'parity')):
+            if op in grp and (op not in ('-',) or len(args) in (1, 2)):
+                for o2 in grp:
+                    if o2 != op and not (o2 == '-' and len(args) > 2) and not (len(args) == 1 and o2 not in UN) \
+                            and not (len(args) == 2 and o2 == 'parity'):
+                        yield OP(o2, *args)
+        if op in ASSOC:
+            yield OP(op, *(args + (I(w, 1),)))
+            yield OP(op, *(args + (args[0],)))
+            if len(args) > 2:
+                yield OP(op, *args[:-1])
+        if len(args) == 2 and args[0] != args[1] and _w(args[0]) == _w(args[1]):
+            yield OP(op, args[1], args[0])
+    elif k == 'slice':
+        aw = _w(t[1])
+        if t[3] + 1 <= aw:
+            yield SL(t[1], t[2] + 1, t[3] + 1)
+        if t[2] > 0:
+            yield SL(t[1], t[2] - 1, t[3] - 1)
+    elif k == 'compose':
+        sl = t[1]
+        for i in range(len(sl)):
+            for j in range(i + 1, len(sl)):
+                if sl[i][2] - sl[i][1] == sl[j][2] - sl[j][1] and sl[i][0] != sl[j][0]:
+                    n = list(sl)
+                    n[i] = (sl[j][0], sl[i][1], sl[i][2])
+                    n[j] = (sl[i][0], sl[j][1], sl[j][2])
+                    yield ('compose', tuple(n))
+    elif k == 'cond':
+        if t[2] != t[3]:
+            yield COND(t[1], t[3], t[2])
+        yield COND(OP('-', t[1]) if t[1][0] != 'int' else I(t[1][1], t[1][2] + 1), t[2], t[3])
+    if depth <= 0:
+        return
+    # one child mutated
+    if k == 'mem':
+        for m in mutants(t[1], depth - 1):
+            yield MEM(m, t[2], t[3])
+    elif k == 'op':
+        for i, a in enumerate(t[2]):
+            for m in mutants(a, depth - 1):
+                yield OP(t[1], *(t[2][:i] + (m,) + t[2][i + 1:]))
+    elif k == 'slice':
+        for m in mutants(t[1], depth - 1):
+            yield SL(m, t[2], t[3])
+    elif k == 'compose':
+        for i, (a, s, e) in enumerate(t[1]):
+            for m in mutants(a, depth - 1):
+                yield ('compose', t[1][:i] + ((m, s, e),) + t[1][i + 1:])
+    elif k == 'cond':
+        for i in (1, 2, 3):
+            for m in mutants(t[i], depth - 1):
+                yield t[:i] + (m,) + t[i + 1:]
+
+
+def exemplars(w):
+    """one or more exemplars of every node kind / operator class at width w (non-leaf)"""
+    a, b = ID('a', w), ID('b', w)
+    c3 = I(w, 3)
+    out = [OP('+', a, b), OP('+', a, b, c3), OP('*', a, b), OP('*', a, b, c3), OP('&', a, b), OP('&', a, b, I(w, 0xF & mask(w))),
+           OP('|', a, c3), OP('^', a, b), OP('-', a), OP('-', OP('+', a, b)), OP('<<', a, b), OP('>>', a, I(w, 1)),
+           OP('a>>', a, I(w, 1)), OP('<<<', a, b), OP('>>>', a, I(w, 1)), OP('==', a, b), OP('parity', a),
+           COND(a, b, c3), COND(OP('==', a, b), a, b)]
+    if w >= 8:
+        out += [SL(CO((a, 0, w), (b, w, 2 * w)), 4, 4 + w)] if 2 * w <= 64 else []
+        out += [CO((SL(a, 0, 4), 0, 4), (SL(b, 4, w), 4, w)), CO((SL(a, 0, 4), 0, 4), (SL(a, 4, w), 4, w)),
+                CO((SL(b, 0, w // 2), 0, w // 2), (SL(a, 0, w // 2), w // 2, w))]
+        ad = addr_of(w)
+        out += [MEM(ad, w), MEM(ad, w, ID('ds', 16)), MEM(OP('+', ad, I(32, 4)), w)]
+        if w > 8:
+            out += [SL(MEM(ad, 2 * w if 2 * w <= 64 else w), 0, w)] if 2 * w <= 64 else []
+    return out
+
+
+def near_equal(w):
+    """T11: the equality-based cancellation rules (A^A, A+(-A), (-A)+A, A|A, A&A, A==A) fed with
+    twins that differ at exactly one point -- they must NOT cancel -- and with equal operands"""
+    a, b = ID('a', w), ID('b', w)
+    for A in exemplars(w):
+        tw = [A]
+        seen = set([A])
+        for m in mutants(A, 2):
+            if m not in seen and _w(m) == w:
+                seen.add(m)
+                tw.append(m)
+        for B in tw:
+            yield OP('^', A, B)
+            yield OP('^', B, A)
+            yield OP('+', A, OP('-', B))
+            yield OP('+', OP('-', B), A)
+            yield OP('-', A, B)
+            yield OP('|', A, B)
+            yield OP('&', A, B)
+            yield OP('==', A, B)
+            yield OP('^', A, b, B)
+            yield OP('+', A, b, OP('-', B))
+            yield COND(OP('==', A, B), a, b)
